@@ -1,6 +1,6 @@
 //! Glue for coverage-guided fuzzing (libFuzzer via cargo-fuzz): every property can be driven by fuzz bytes,
-//! either directly (byte-string cases) or through proptest's pass-through RNG (the bytes *are* the random
-//! stream the strategy consumes, so libFuzzer's mutations become structured mutations of the case).
+//! either directly (byte-string cases: c02_bytes, c08_bytes) or as the seed of the property's own proptest strategy
+//! (the `pt_*` targets; see `run_passthrough` for why the bytes are a seed and not the random stream itself).
 
 use crate::core::*;
 use proptest::strategy::{Strategy, ValueTree};
@@ -20,13 +20,28 @@ impl<P: Property> Fuzzer<P> {
         Fuzzer { p, strategy, known: findings::for_property(P::ID) }
     }
 
-    /// the bytes are the random stream of the property's own strategy
+    /// the bytes select a case of the property's own strategy
     pub fn run_passthrough(&self, data: &[u8]) {
         if data.len() < 8 {
             return;
         }
         let config = Config { failure_persistence: None, cases: 1, ..Config::default() };
-        let mut runner = TestRunner::new_with_rng(config, TestRng::from_seed(RngAlgorithm::PassThrough, data));
+        // The plan was proptest's pass-through RNG (the bytes *are* the random stream). It cannot drive these strategies:
+        // every `prop_oneof!` / lazy sub-tree forks the RNG, a fork of a pass-through RNG takes *half of the remaining
+        // bytes*, so a few dozen unions exhaust any input; an exhausted stream yields zeros, and rand's unbiased range
+        // sampling (Lemire) rejects 0 for every range that is not a power of two — for ever (observed: one execution
+        // did not end in 20 minutes). So the bytes select the case as a seed: a ChaCha stream keyed by a hash of the
+        // input. libFuzzer's corpus then remembers the inputs whose cases reached new code under ASan; a mutated
+        // input is a fresh case, not a neighbouring one.
+        let mut seed = [0u8; 32];
+        let mut x = fnv(data) | 1;
+        for chunk in seed.chunks_mut(8) {
+            x ^= x << 13;
+            x ^= x >> 7;
+            x ^= x << 17;
+            chunk.copy_from_slice(&x.to_le_bytes());
+        }
+        let mut runner = TestRunner::new_with_rng(config, TestRng::from_seed(RngAlgorithm::ChaCha, &seed));
         let Ok(tree) = self.strategy.new_tree(&mut runner) else { return };
         let case = tree.current();
         self.judge(&case);
